@@ -122,8 +122,9 @@ def _build_template_queries():
             if isinstance(part, ast.FormattedValue):
                 ok, why = _classify_interpolation(part, params, assigns)
                 items.append((ast.unparse(part.value), ok, why))
-    if not any("html.escape" in lab for lab, _, _ in items):
-        raise smt.AnchorNotFound("format_error: the message is not interpolated at all (template changed)")
+    msg_param = fn.args.args[1].arg if len(fn.args.args) >= 2 else None
+    if msg_param is None or not any(isinstance(n, ast.Name) and n.id == msg_param for j in joined for n in ast.walk(j)):
+        raise smt.AnchorNotFound("format_error: the message parameter is not interpolated at all (template changed)")
     # `html` is the stdlib module, never rebound
     imp = any(isinstance(n, ast.Import) and any(a.name == "html" and a.asname is None for a in n.names) for n in tree.body)
     rebound = any(isinstance(n, (ast.Assign, ast.FunctionDef, ast.ClassDef)) and ("html" in [getattr(t, "id", None) for t in getattr(n, "targets", [])] or getattr(n, "name", None) == "html")
